@@ -27,6 +27,7 @@ def run(chk, tier):
     chk.guarded(r_year_uses, P)
     chk.guarded(r_mdf_box, P, tier)
     chk.guarded(r_mdf_lanes, P, tier)
+    chk.guarded(r_ordinal_box, P, tier)
     chk.guarded(r_cycle, P, tier)
     chk.assume("the branchy arithmetic that combines the verified tables (from_isoywd_opt spill, cycle_to_yo, succ/pred rollover) "
                "is not decided here")
@@ -507,3 +508,44 @@ def r_mdf_lanes(chk, P, tier):
         ok = keep is not None and (keep & ALL) == (ALL ^ lane) and ins_shift == shift
         chk.expect(ok, name, "Mdf::%s keeps mask %s of the packed word and inserts at shift %s; expected to keep %s and insert at shift %d" % (
             name, bin(keep & ALL) if keep is not None else None, ins_shift, bin(ALL ^ lane), shift), loc=P.loc(fn))
+
+
+def r_ordinal_box(chk, P, tier):
+    """from_ordinal_and_flags is the gate of from_yo_opt and of the day-number / ISO-week constructors: it accepts exactly ordinal 1..=366 tested on the
+    ARGUMENT (the packed `ordinal << 4` is later range-checked only against the leap flag), and year within MIN_YEAR..=MAX_YEAR; and year_ce splits at year 1"""
+    from rules import accept_boxes
+    chk.rule("BOX.ordinal", "from_ordinal_and_flags returns Some only for ordinal in 1..=366 (argument, unshifted) and MIN_YEAR <= year <= MAX_YEAR; year_ce is (true, year) for year >= 1 else (false, 1 - year)", floor=3)
+    fn = ND + "::from_ordinal_and_flags"
+    miny, maxy = P.value("naive::date::MIN_YEAR"), P.value("naive::date::MAX_YEAR")
+    bs = accept_boxes(P, fn, {"year": ("arg", 1), "ordinal": ("arg", 2)})
+    somes = [(b, o, p_) for b, o, p_ in bs if not (p_.ret[0] == "agg" and p_.ret[3] == "None")]
+    if not somes:
+        raise AnchorLost(fn + ": no value path")
+    def low(b, p_):
+        l = b["ordinal"][0]
+        if l is not None and l >= 1:
+            return l
+        for c in p_.conds:
+            t = c[1]
+            if c[0][0] == "switch" and t[0] == "bin" and t[2] == ("arg", 2) and const_of(t[3]) == 0 and ((t[1] == "Eq" and c[2] == 0) or (t[1] == "Ne" and c[2] != 0)):
+                return 1
+        return l if l is not None else -1
+    lo = min(low(b, p_) for b, o, p_ in somes)
+    hi = max((b["ordinal"][1] if b["ordinal"][1] is not None else 1 << 40) for b, o, p_ in somes)
+    chk.expect((lo, hi) == (1, 366), "ordinal", "from_ordinal_and_flags can return a date for ordinal in [%s, %s]; expected exactly 1..=366 on the argument" % (lo, hi), loc=P.loc(fn))
+    ylo = min((b["year"][0] if b["year"][0] is not None else -(1 << 40)) for b, o, p_ in somes)
+    yhi = max((b["year"][1] if b["year"][1] is not None else 1 << 40) for b, o, p_ in somes)
+    chk.expect((ylo, yhi) == (miny, maxy), "year", "from_ordinal_and_flags accepts years [%s, %s]; expected [%s, %s]" % (ylo, yhi, miny, maxy), loc=P.loc(fn))
+    # year_ce: the BCE branch is 1 - year
+    fn2 = "traits::Datelike::year_ce"
+    ok = False
+    seen = []
+    for p_ in Sym(P, fn2).paths():
+        if p_.end[0] != "return" or p_.ret[0] != "agg":
+            continue
+        flag, val = p_.ret[4][0], p_.ret[4][1]
+        seen.append((pp(flag), pp(val)[:50]))
+        if const_of(flag) is False:
+            subs = [x for x in walk_terms(val) if x[0] == "bin" and x[1].startswith("Sub") and const_of(x[2]) == 1]
+            ok = bool(subs)
+    chk.expect(ok, "year_ce", "Datelike::year_ce does not return (false, 1 - year) for years before 1: %s" % seen, loc=P.loc(fn2))
